@@ -138,7 +138,10 @@ Definition with_body (start : bytes) (h : headers) (date : bytes) (r : reader) (
     | Some cl =>
         if (cl <=? N.of_nat PROBE_MAX)%N then
           let '(buf, _) := take_all (reader_fuel r) (N.to_nat cl) r [] in
-          WOk (write_vectored_bytes (start ++ fields ++ content_length_header cl ++ CRLF ++ CRLF) buf accepted)
+          (* fix F35: a reader that ends before the declared length is an error; nothing has been written yet *)
+          if N.eqb (N.of_nat (length buf)) cl
+          then WOk (write_vectored_bytes (start ++ fields ++ content_length_header cl ++ CRLF ++ CRLF) buf accepted)
+          else WErr []
         else
           (* Streaming: exactly cl bytes are copied; a shorter reader is an error *)
           let head := start ++ fields ++ content_length_header cl ++ CRLF ++ CRLF in
